@@ -2,9 +2,12 @@
 import itertools
 from fractions import Fraction
 
+import math
+
 import numpy as np
 
 from .. import core
+from .c11 import nearest_f32_bits
 
 RULE = ("arrays with 1-3 channels and extents 1..9 per axis (odd, even, size 1), data types u8/u16/u32/u64/"
         "float32, factors {1,2}^3 for averaging and {1,2,3,4}^3 for majority/striding, value patterns "
@@ -13,8 +16,9 @@ RULE = ("arrays with 1-3 channels and extents 1..9 per axis (odd, even, size 1),
         "vs the Lean model; thorough adds all shapes <= 4^3 x all factor triples. Trivial = all factors 1.")
 ASSUMPTIONS = [
     "float64 arithmetic is exact on integer data below 2^50 (sums of 8 values, halvings)",
-    "float32 data: the mean is only required to lie within the contributing values and within 1e-6 "
-    "relative of the exact mean (IEEE rounding of the float64 work array)",
+    "float32 data: when the exponents of a block's values span so few bits that float64 sums are exact, the result "
+    "must be the exact mean rounded once to float32; otherwise it must lie within the contributing values and "
+    "within 2^-22 relative of the exact mean; it is always finite",
 ]
 
 
@@ -39,6 +43,7 @@ def oracle(method, a, factors, outside):
                 else:
                     tot = Fraction(0)
                     lo = hi = None
+                    exps = []
                     for dz in range(fz):
                         for dy in range(fy):
                             for dx in range(fx):
@@ -51,9 +56,13 @@ def oracle(method, a, factors, outside):
                                     v = outside
                                 v = Fraction(float(v)) if isinstance(v, (float, np.floating)) else Fraction(int(v))
                                 tot += v
+                                if v != 0:
+                                    exps.append(math.frexp(float(v))[1])
                                 lo = v if lo is None else min(lo, v)
                                 hi = v if hi is None else max(hi, v)
-                    out[z, y, x] = (tot / (fz * fy * fx), lo, hi)
+                    # float64 sums of these float32 values are exact when their exponents span few bits
+                    narrow = (not exps) or (max(exps) - min(exps) + 24 + 4 <= 53)
+                    out[z, y, x] = (tot / (fz * fy * fx), lo, hi, narrow)
     return out
 
 
@@ -156,10 +165,26 @@ def run(ctx):
                                              data=a[c].ravel().tolist()[:80]))
                         break
                 else:
-                    mean, lo, hi = ref[idx]
+                    mean, lo, hi, narrow = ref[idx]
                     if dt == "float32":
+                        if not np.isfinite(got):
+                            ctx.oracle_fail("average downscaler (float32): the result overflowed (not finite) although "
+                                            "every contributing value is finite",
+                                            dict(desc, channel=c, voxel_zyx=list(idx), got=str(got), mean=float(mean)))
+                            break
                         g = Fraction(float(got))
-                        tol = max(abs(mean), abs(lo), abs(hi)) * Fraction(1, 10**6)
+                        if narrow:
+                            # the float64 work array is exact here: the result must be the exact mean rounded once
+                            want_bits = nearest_f32_bits(mean)
+                            got_bits = int(np.float32(got).view(np.uint32))
+                            if float(got) == 0.0 and mean == 0:
+                                got_bits = want_bits
+                            if got_bits != want_bits:
+                                ctx.oracle_fail("average downscaler (float32): the result is not the exact mean of the "
+                                                "block rounded once to float32",
+                                                dict(desc, channel=c, voxel_zyx=list(idx), got=float(got), mean=float(mean)))
+                                break
+                        tol = max(abs(mean), abs(lo), abs(hi)) * Fraction(1, 2**22)
                         if not (lo - tol <= g <= hi + tol) or abs(g - mean) > tol + Fraction(1, 10**40):
                             ctx.oracle_fail("average downscaler (float32): result outside the contributing values "
                                             "or not close to the exact mean",
